@@ -286,7 +286,9 @@ def rule_status_map(ctx, rep):
                 rep.check("R-STATUS-MAP", fn.qname, fn.loc(n), ok, f"sys.exit({unparse(a) if a is not None else ''})",
                           "argument errors must exit with status 3 from ArgumentParser.error; no other direct exit is documented")
             if isinstance(n, ast.Call) and last_attr(n.func) == "exit" and isinstance(n.func, ast.Attribute) and isinstance(n.func.value, ast.Name) and n.func.value.id == "parser":
-                ok = not n.args and not n.keywords
+                # status 0 is the default; `parser.exit(0)` / `parser.exit(status=0)` say the same thing
+                st_ = n.args[0] if n.args else next((k.value for k in n.keywords if k.arg == "status"), None)
+                ok = (st_ is None or (isinstance(st_, ast.Constant) and st_.value == 0)) and len(n.args) <= 1 and all(k.arg == "status" for k in n.keywords)
                 rep.check("R-STATUS-MAP", fn.qname, fn.loc(n), ok, "parser.exit()",
                           "--list / --describe must exit with the default status 0")
     # parse_args instantiates the repo's ArgumentParser subclass (whose error() exits 3)
@@ -415,10 +417,45 @@ def rule_ai_config(ctx, rep):
             if isinstance(par, ast.If) and any(x is r_ for st in par.body for x in ast.walk(st)):
                 conds.add(unparse(par.test))
                 cond_tests.append(par.test)
+        # the consistency check may also be a `match` over the configuration whose inconsistent case(s) raise: a `match` executes exactly one
+        # case, so an exit inside another case of the same statement, or in a statement that follows it in the same block (every path to it
+        # ran through the match and did not take the raising case), is reached with the check evaluated to `consistent`
+        pm_ = ctx.parents(fn)
+        raising_matches = []
+        for r_ in raises:
+            cur = pm_.get(id(r_))
+            while cur is not None and cur is not fn.node and not isinstance(cur, ast.match_case):
+                cur = pm_.get(id(cur))
+            if isinstance(cur, ast.match_case):
+                raising_matches.append((pm_.get(id(cur)), cur))
+
+        def dominated_by_match(node) -> bool:
+            for m_, case_ in raising_matches:
+                chain = []
+                cur = node
+                while cur is not None and cur is not fn.node:
+                    chain.append(cur)
+                    cur = pm_.get(id(cur))
+                if m_ in chain:
+                    if case_ not in chain:
+                        return True
+                    continue
+                owner = pm_.get(id(m_))
+                for fld in ("body", "orelse", "finalbody"):
+                    blk = getattr(owner, fld, None)
+                    if isinstance(blk, list) and m_ in blk:
+                        later = blk[blk.index(m_) + 1:]
+                        if any(x in chain for x in later):
+                            return True
+            return False
+
         for ex in fa.exits:
             if ex.kind != "return" or not isinstance(ex.value, ast.Call):
                 continue
             n += 1
+            if raising_matches and not cond_tests and dominated_by_match(ex.node):
+                rep.instance("R-AI-CONFIG", fn.qname, fn.loc(ex.node), True, detail=f"return {unparse(ex.value.func)} (after / beside the raising case of a match)")
+                continue
             # the exit must be unreachable while any raising condition holds: adding "C is true" to each alternative of the
             # exit state contradicts what is known there (independent of how C or its negation is spelled)
             ok = bool(cond_tests) and all(ex.state.add(cond_facts(t, True)) is None for t in cond_tests)
